@@ -90,6 +90,20 @@ def cases(ctx):
         yield c
 
 
+import collections
+
+
+class _CellLog(collections.UserList):
+    """A callable that is also a (here: empty) sequence."""
+
+    def __init__(self, sink):
+        super().__init__()
+        self.sink = sink
+
+    def __call__(self, coords, rowids):
+        self.sink.append((coords, rowids))
+
+
 def expected_events(dense, commons):
     """Row-wise oracle: a row whose uncommon coordinates are {d: v_d, d in U} matches exactly the
     combinations that keep v_d on a non-empty subset of U and are marginal elsewhere."""
@@ -220,7 +234,12 @@ def judge(ctx, case):
         ctx.count("walk:callbacks=%d" % k)
         logs = [[] for _ in range(k)]
         cbs = [(lambda c, r, L=L: L.append((c, r))) for L in logs]
-        cube.walk(cbs[0] if k == 1 and n % 2 == 0 else cbs)
+        if k == 1 and n % 2 == 0 and cn % 3 == 0:
+            # a single callback that is itself a collection (a collecting aggregate that lets its cells be read back)
+            ctx.count("walk:callback_is_a_callable_sequence")
+            cube.walk(_CellLog(logs[0]))
+        else:
+            cube.walk(cbs[0] if k == 1 and n % 2 == 0 else cbs)
     mixed = any(any(v == -1 for v in c) and any(v != -1 for v in c) for c in exp)
     ctx.evaluation({"d": dense, "c": commons, "v": case["via"], "k": case["ncallbacks"]}, len(dense) >= 2 and mixed)
     if ctx.evals % 331 == 1:
